@@ -569,14 +569,15 @@ def aliased_body(c):
 
     vseed = c.seed()
     (W, b), _ = values.generic(vseed, [(2, 3), (3,)], 0.3, 2.7, avoid=(1.0, 2.0))
-    sub_kind = c.choice(["tuple", "list", "dict"])
-    sub = (W, b) if sub_kind == "tuple" else ([W, b] if sub_kind == "list" else {"W": W, "b": b})
-    outer = c.choice(["list_times_2", "tuple_pair", "dict_pair", "nested_pair"])
-    params = {"list_times_2": lambda: [sub] * 2, "tuple_pair": lambda: (sub, sub), "dict_pair": lambda: {"a": sub, "b": sub}, "nested_pair": lambda: (sub, [sub, 1.5])}[outer]()
-    getW = (lambda s_: s_["W"]) if sub_kind == "dict" else (lambda s_: s_[0])
-    getb = (lambda s_: s_["b"]) if sub_kind == "dict" else (lambda s_: s_[1])
-    first = {"list_times_2": lambda p: p[0], "tuple_pair": lambda p: p[0], "dict_pair": lambda p: p["a"], "nested_pair": lambda p: p[0]}[outer]
-    second = {"list_times_2": lambda p: p[1], "tuple_pair": lambda p: p[-1], "dict_pair": lambda p: p["b"], "nested_pair": lambda p: p[1][0]}[outer]
+    sub_kind = c.choice(["tuple", "list", "dict", "array"])  # array: the SAME ndarray object at both positions (leaf-level aliasing)
+    sub = (W, b) if sub_kind == "tuple" else ([W, b] if sub_kind == "list" else ({"W": W, "b": b} if sub_kind == "dict" else W))
+    outer = c.choice(["list_times_2", "tuple_pair", "dict_pair", "nested_pair"] + (["two_args"] if sub_kind == "array" else []))
+    params = {"list_times_2": lambda: [sub] * 2, "tuple_pair": lambda: (sub, sub), "dict_pair": lambda: {"a": sub, "b": sub}, "nested_pair": lambda: (sub, [sub, 1.5]), "two_args": lambda: (sub, sub)}[outer]()
+    getW = (lambda s_: s_["W"]) if sub_kind == "dict" else ((lambda s_: s_) if sub_kind == "array" else (lambda s_: s_[0]))
+    getb = (lambda s_: s_["b"]) if sub_kind == "dict" else ((lambda s_: b) if sub_kind == "array" else (lambda s_: s_[1]))
+    leaf = sub_kind == "array"
+    first = {"list_times_2": lambda p: p[0], "tuple_pair": lambda p: p[0], "dict_pair": lambda p: p["a"], "nested_pair": lambda p: p[0], "two_args": lambda p: p[0]}[outer]
+    second = {"list_times_2": lambda p: p[1], "tuple_pair": lambda p: p[-1], "dict_pair": lambda p: p["b"], "nested_pair": lambda p: p[1][0], "two_args": lambda p: p[1]}[outer]
     mode = c.choice(["grad", "value_and_grad", "make_vjp", "jvp_second"])
     sample = {"sub": sub_kind, "outer": outer, "mode": mode, "vseed": vseed}
     c.features.update(outer=outer, sub=sub_kind, mode=mode)
@@ -590,20 +591,27 @@ def aliased_body(c):
     try:
         if mode == "jvp_second":
             # a direction that moves only the second position
-            zero_sub = (onp.zeros_like(W), onp.zeros_like(b)) if sub_kind == "tuple" else ([onp.zeros_like(W), onp.zeros_like(b)] if sub_kind == "list" else {"W": onp.zeros_like(W), "b": onp.zeros_like(b)})
-            one_sub = (onp.ones_like(W), onp.ones_like(b)) if sub_kind == "tuple" else ([onp.ones_like(W), onp.ones_like(b)] if sub_kind == "list" else {"W": onp.ones_like(W), "b": onp.ones_like(b)})
+            zero_sub = (onp.zeros_like(W), onp.zeros_like(b)) if sub_kind == "tuple" else ([onp.zeros_like(W), onp.zeros_like(b)] if sub_kind == "list" else ({"W": onp.zeros_like(W), "b": onp.zeros_like(b)} if sub_kind == "dict" else onp.zeros_like(W)))
+            one_sub = (onp.ones_like(W), onp.ones_like(b)) if sub_kind == "tuple" else ([onp.ones_like(W), onp.ones_like(b)] if sub_kind == "list" else ({"W": onp.ones_like(W), "b": onp.ones_like(b)} if sub_kind == "dict" else onp.ones_like(W)))
             tang = {"list_times_2": lambda: [zero_sub, one_sub], "tuple_pair": lambda: (zero_sub, one_sub), "dict_pair": lambda: {"a": zero_sub, "b": one_sub},
-                    "nested_pair": lambda: (zero_sub, [one_sub, 0.0])}[outer]()
-            t = autograd.make_jvp(f)(params)(tang)[1]
+                    "nested_pair": lambda: (zero_sub, [one_sub, 0.0]), "two_args": lambda: one_sub}[outer]()
+            t = autograd.make_jvp(f)(params)(tang)[1] if outer != "two_args" else autograd.make_jvp(lambda a_, b_: f((a_, b_)), 1)(sub, sub)(tang)[1]
             if not (onp.shape(t) == () and float(t) == 0.0):
                 return fail("not_exact_zero", f"tangent {t!r} for a direction that moves only the position the function reads through floor / comparisons", bucket("fwd"), sample=sample)
             return ok(nontrivial=True, key=json.dumps([sub_kind, outer, mode]), labels=["aliased", "mode=fwd"], sample=sample)
-        g = autograd.grad(f)(params) if mode == "grad" else (autograd.value_and_grad(f)(params)[1] if mode == "value_and_grad" else autograd.make_vjp(f)(params)[0](1.0))
+        if outer == "two_args":
+            f2 = lambda a_, b_: f((a_, b_))
+            g = autograd.grad(f2, (0, 1))(sub, sub) if mode == "grad" else (autograd.value_and_grad(f2, (0, 1))(sub, sub)[1] if mode == "value_and_grad" else autograd.make_vjp(f2, (0, 1))(sub, sub)[0](1.0))
+        else:
+            g = autograd.grad(f)(params) if mode == "grad" else (autograd.value_and_grad(f)(params)[1] if mode == "value_and_grad" else autograd.make_vjp(f)(params)[0](1.0))
     except Exception as e:
         if not from_autograd(e):
             raise
         return fail("exception_for_constant", describe_exc(e), bucket("exception"), sample=sample)
     g1, g2 = first(g), second(g)
+    if leaf:
+        getb = lambda s_: onp.zeros_like(b)  # (no second leaf in this arrangement)
+        wantb = onp.zeros_like(b)
     if not (onp.array_equal(onp.asarray(getW(g2)), onp.zeros_like(W)) and onp.array_equal(onp.asarray(getb(g2)), onp.zeros_like(b))):
         return fail("not_exact_zero", f"the position read only through floor / comparisons has gradient {onp.asarray(getW(g2)).tolist()}, {onp.asarray(getb(g2)).tolist()}", bucket("second"), sample=sample)
     if not (onp.allclose(onp.asarray(getW(g1)), wantW, rtol=0, atol=1e-13) and onp.allclose(onp.asarray(getb(g1)), wantb, rtol=0, atol=1e-13)):
